@@ -361,11 +361,10 @@ func replay(l *layer, h []op) system {
 
 // succ is what discovery needs to know about one transition.
 type succ struct {
-	J    int    // op index
-	OK   bool   // enabled, no panic, oracle silent: the successor is a state
-	Key  string // canonical key of the successor
-	Obs  string // observable dump of the successor
-	Note string
+	J   int    // op index
+	OK  bool   // enabled, no panic, oracle silent: the successor is a state
+	Key string // canonical key of the successor
+	Obs string // observable dump of the successor
 }
 
 // expandOne executes transition (h, ops[j]) in this process.
@@ -398,11 +397,11 @@ type crashRec struct {
 
 type plan struct {
 	Tier    string
-	States  [2][]stateRec
-	Keys    [2][]string
+	States  [][]stateRec
+	Keys    [][]string
 	Crashes []crashRec
-	HErrs   [2][]string
-	DObs    [2]int
+	HErrs   [][]string
+	DObs    []int
 	Secs    float64
 }
 
@@ -744,7 +743,7 @@ func getPlan(tier string, layers []*layer) *plan {
 			var pl plan
 			err = gob.NewDecoder(bufio.NewReaderSize(f, 1<<20)).Decode(&pl)
 			f.Close()
-			if err == nil && pl.Tier == tier {
+			if err == nil && pl.Tier == tier && len(pl.States) == len(layers) {
 				return &pl
 			}
 		}
@@ -754,7 +753,8 @@ func getPlan(tier string, layers []*layer) *plan {
 		fmt.Fprintln(os.Stderr, "C07: discovery BFS did not reach a fixpoint in 8 minutes")
 		os.Exit(3)
 	})
-	pl := &plan{Tier: tier}
+	n := len(layers)
+	pl := &plan{Tier: tier, States: make([][]stateRec, n), Keys: make([][]string, n), HErrs: make([][]string, n), DObs: make([]int, n)}
 	pool := make([]*executor, runtime.NumCPU())
 	for i := range pool {
 		pool[i] = &executor{tier: tier}
@@ -1123,21 +1123,22 @@ func layer1(K int) *layer {
 
 // ---------------------------------------------------------------- layer 2: TreeIndex
 
-var tokenNames = []string{"a", "b", "c"} // c is never added
+var tokenNames = []string{"a", "b", "c", "d"}
 
+// sys2: the first T token names can be added; tokenNames[T] never is.
 type sys2 struct {
 	quiet   bool
-	V       int
+	V, T    int
 	idx     *search.TreeIndex
 	it      search.Iterator
 	itTok   int
-	sets    [2]uint16
-	present [2]bool
+	sets    [3]uint16
+	present [3]bool
 	m       monitor
 }
 
-func newSys2(V int) *sys2 {
-	s := &sys2{V: V, idx: search.NewTreeIndex(intValues{})}
+func newSys2(V, T int) *sys2 {
+	s := &sys2{V: V, T: T, idx: search.NewTreeIndex(intValues{})}
 	s.it = s.idx.Begin("a")
 	s.itTok = 0
 	s.m.reopen(0)
@@ -1155,7 +1156,7 @@ func maskTokens(mask int8) []string {
 }
 
 func (s *sys2) iterSet() uint16 {
-	if s.itTok < 2 && s.present[s.itTok] {
+	if s.itTok < s.T && s.present[s.itTok] {
 		return s.sets[s.itTok]
 	}
 	return 0
@@ -1179,7 +1180,7 @@ func lessEntry(a, b search.Value) bool {
 
 func (s *sys2) wantTokens() []string {
 	var w []string
-	for i := 0; i < 2; i++ {
+	for i := 0; i < s.T; i++ {
 		if s.present[i] {
 			w = append(w, tokenNames[i])
 		}
@@ -1206,7 +1207,7 @@ func (s *sys2) checkIndex(r *kit.Result, opn string, what func() string) {
 	for _, v := range top.inorder {
 		t, l := search.VerifTreeEntry(v)
 		got = append(got, t)
-		for i := range tokenNames[:2] {
+		for i := range tokenNames[:s.T] {
 			if tokenNames[i] == t {
 				checkList(r, opn+":list", l, s.sets[i], what)
 			}
@@ -1227,7 +1228,7 @@ func (s *sys2) checkIndex(r *kit.Result, opn string, what func() string) {
 			r.Count("info:NumTokens-differs-from-number-of-tokens(Len is not in the statement)", 1)
 		}
 	}
-	for _, x := range []string{"", "a", "aa", "b", "c"} {
+	for _, x := range []string{"", "a", "aa", "b", "bb", "c", "d"} {
 		ti := s.idx.Tokens()
 		ok := ti.Advance(x)
 		wantTok := ""
@@ -1245,9 +1246,9 @@ func (s *sys2) checkIndex(r *kit.Result, opn string, what func() string) {
 			r.Violate(opn+":Tokens.Advance:wrong", "%s: Tokens().Advance(%q) = %v %q want %q", what(), x, ok, gotTok, wantTok)
 		}
 	}
-	for i, name := range tokenNames {
+	for i, name := range tokenNames[:s.T+1] {
 		var set uint16
-		if i < 2 {
+		if i < s.T {
 			set = s.sets[i]
 		}
 		var vs []search.Value
@@ -1268,7 +1269,7 @@ func (s *sys2) apply(o op, r *kit.Result, what func() string) (string, bool) {
 		opn = "Add"
 		v := int(o.A)
 		newTok, newVal := false, false
-		for i := 0; i < 2; i++ {
+		for i := 0; i < s.T; i++ {
 			if o.B&(1<<i) != 0 {
 				if !s.present[i] {
 					newTok = true
@@ -1286,7 +1287,7 @@ func (s *sys2) apply(o op, r *kit.Result, what func() string) (string, bool) {
 		opn = "Remove"
 		v := int(o.A)
 		eff := false
-		for i := 0; i < 2; i++ {
+		for i := 0; i < s.T; i++ {
 			if o.B&(1<<i) != 0 && s.present[i] {
 				if s.sets[i]&(1<<v) != 0 {
 					eff = true
@@ -1363,8 +1364,7 @@ func (s *sys2) key() string {
 
 func (s *sys2) obs() string {
 	var parts []string
-	for i, name := range tokenNames {
-		_ = i
+	for _, name := range tokenNames[:s.T+1] {
 		var vs []search.Value
 		it := s.idx.Begin(name)
 		for n := 0; it.Next() && n < 40; n++ {
@@ -1376,25 +1376,22 @@ func (s *sys2) obs() string {
 	return strings.Join(parts, " ")
 }
 
-func layer2(V int) *layer {
-	l := &layer{name: fmt.Sprintf("TreeIndex[values0..%d,tokens a b]", V-1), fresh: func() system { return newSys2(V) }}
-	for v := 0; v < V; v++ {
-		for _, m := range []int8{1, 2, 3} {
-			l.ops = append(l.ops, op{K: 'a', A: int8(v), B: m})
+func layer2(V, T int) *layer {
+	l := &layer{name: fmt.Sprintf("TreeIndex[values0..%d,tokens %s]", V-1, strings.Join(tokenNames[:T], " ")), fresh: func() system { return newSys2(V, T) }}
+	for _, k := range []byte{'a', 'r'} {
+		for v := 0; v < V; v++ {
+			for m := int8(1); m < 1<<T; m++ { // every non-empty token subset
+				l.ops = append(l.ops, op{K: k, A: int8(v), B: m})
+			}
 		}
 	}
-	for v := 0; v < V; v++ {
-		for _, m := range []int8{1, 2, 3} {
-			l.ops = append(l.ops, op{K: 'r', A: int8(v), B: m})
-		}
-	}
-	l.ops = append(l.ops, op{K: 'r', A: 0, B: 4}) // remove from the never-added token
-	l.ops = append(l.ops, op{K: 'a', A: 0, B: 0}) // add with no tokens
+	l.ops = append(l.ops, op{K: 'r', A: 0, B: 1 << T}) // remove from the never-added token
+	l.ops = append(l.ops, op{K: 'a', A: 0, B: 0})      // add with no tokens
 	l.ops = append(l.ops, op{K: 'N'})
 	for k := 0; k <= V; k++ {
 		l.ops = append(l.ops, op{K: 'A', A: int8(k)})
 	}
-	for t := 0; t < 3; t++ {
+	for t := 0; t <= T; t++ {
 		l.ops = append(l.ops, op{K: 'B', A: int8(t)})
 	}
 	l.opName = func(o op) string {
@@ -1416,11 +1413,10 @@ func layer2(V int) *layer {
 // ---------------------------------------------------------------- main
 
 func buildLayers(tier string) []*layer {
-	K, V := 5, 3
 	if tier == "thorough" {
-		K, V = 6, 4
+		return []*layer{layer1(7), layer2(4, 2), layer2(3, 3)}
 	}
-	return []*layer{layer1(K), layer2(V)}
+	return []*layer{layer1(5), layer2(3, 2)}
 }
 
 func main() {
@@ -1447,19 +1443,30 @@ func main() {
 		Build: func(tier string) (kit.Space, string) {
 			layers := buildLayers(tier)
 			pl := getPlan(tier, layers)
-			sp1, sp2 := newSpace(pl, 0, layers[0]), newSpace(pl, 1, layers[1])
-			n1, n2, n3 := int64(len(sp1.states)), int64(len(sp2.states)), int64(len(pl.Crashes))
-			bound := fmt.Sprintf("fixpoint (all history lengths). layer 1 %s: ops Insert k, Delete k (present or absent), Next, Advance k (k up to one above the largest key), Begin (reopen): %d states x %d ops. "+
-				"layer 2 %s (+ never-added token c): ops Add(v,[a]|[b]|[a b]|[]), Remove(v,[a]|[b]|[a b]|[c]), Begin(a|b|c), Next, Advance k: %d states x %d ops. %d transitions kill the process and run as cases of their own",
-				layers[0].name, n1, len(layers[0].ops), layers[1].name, n2, len(layers[1].ops), n3)
-			return kit.FuncSpace{N: n1 + n2 + n3, F: func(i int64) kit.Result {
-				switch {
-				case i < n1:
-					return sp1.run(int32(i))
-				case i < n1+n2:
-					return sp2.run(int32(i - n1))
+			var spaces []*space
+			var starts []int64
+			var n int64
+			var descr []string
+			for li, l := range layers {
+				sp := newSpace(pl, li, l)
+				spaces = append(spaces, sp)
+				starts = append(starts, n)
+				n += int64(len(sp.states))
+				descr = append(descr, fmt.Sprintf("%s: %d states x %d ops", l.name, len(sp.states), len(l.ops)))
+			}
+			nc := int64(len(pl.Crashes))
+			bound := fmt.Sprintf("fixpoint (all history lengths). treeList layer: ops Insert k, Delete k (present or absent), Next, Advance k (k up to one above the largest key), Begin (reopen). "+
+				"TreeIndex layers (+ one never-added token): ops Add(v,T) and Remove(v,T) for every non-empty token subset T, Add(0,[]), Remove(0,[never-added]), Begin(token), Next, Advance k. %s. %d transitions kill the process and run as cases of their own",
+				strings.Join(descr, "; "), nc)
+			return kit.FuncSpace{N: n + nc, F: func(i int64) kit.Result {
+				if i >= n {
+					return runCrash(tier, layers, pl, pl.Crashes[i-n])
 				}
-				return runCrash(tier, layers, pl, pl.Crashes[i-n1-n2])
+				li := len(starts) - 1
+				for starts[li] > i {
+					li--
+				}
+				return spaces[li].run(int32(i - starts[li]))
 			}}, bound
 		},
 	})
